@@ -67,6 +67,18 @@ pub fn run(ctx: &mut Ctx, prop: &str) {
                 if bool_of(&o1) != bool_of(&o2) {
                     ctx.law_fail("law:channel-independence", &r1, &dv, "literal and var operands agree".into(), format!("{:?} vs {:?}", bool_of(&o1), bool_of(&o2)));
                 }
+                // channel C: operands computed by other operators (pass-through of if / or, re-built by merge / cat)
+                let ca = match a {
+                    Value::Array(_) => json!({"merge": [{"var": "a"}]}),
+                    Value::String(_) => json!({"cat": [{"var": "a"}]}),
+                    _ => json!({"if": [true, {"var": "a"}, 0]}),
+                };
+                let cb = json!({"or": [{"var": "b"}, {"var": "b"}]});
+                let r3 = op(k, vec![ca, cb]);
+                let o3 = ctx.check(&format!("{}:C", k), &r3, &dv);
+                if bool_of(&o1) != bool_of(&o3) {
+                    ctx.law_fail("law:channel-independence", &r3, &dv, "literal and computed operands agree".into(), format!("{:?} vs {:?}", bool_of(&o1), bool_of(&o3)));
+                }
                 got.push(bool_of(&o1));
                 // public helper on distinct clones
                 let (ca, cb) = (a.clone(), b.clone());
